@@ -937,8 +937,10 @@ def scenario_from_mps(ctx, gm, qntot):
     got_t = safe_dense(ttns, gm, False)
     ok = ctx.close(got_t, tensor_before, TOL, "from_mps|dense-vector-not-preserved", scale=scale, trace=tr)
     ctx.check([id(b) for b in basis.basis_list] == [id(b) for b in list(gm.basis)[::-1]], "from_mps|basis-order-not-reversed")
-    if ok and abs(mps.coeff - 1) > 1e-12:
+    if abs(mps.coeff - 1) > 1e-12:
         ctx.cls("from_mps:coeff!=1")
+    if ok:
+        # the represented vector (tensors times prefactor), whatever the prefactor of the chain state is
         ctx.close(safe_dense(ttns, gm), before, TOL, "from_mps|coeff-dropped", scale=max(float(np.linalg.norm(before)), 1e-300),
                   mps_coeff=complex(mps.coeff), ttns_coeff=complex(ttns.coeff))
     ctx.close(states.dense_of(mps).reshape(-1), before, TOL, "from_mps|input-changed", scale=max(float(np.linalg.norm(before)), 1e-300))
